@@ -1,33 +1,9 @@
-//! scratch probe (not a check)
-use grafeo_engine::GrafeoDB;
+use grafeo_engine::query::optimizer::Optimizer;
+use grafeo_engine::query::gql_translator;
 fn main() {
-    let db = GrafeoDB::new_in_memory();
-    let s = db.session();
-    for q in [
-        "INSERT DATA { <http://e/a> <http://e/p> <http://e/b> . <http://e/b> <http://e/p> <http://e/c> . <http://e/a> <http://e/q> \"1\"^^<http://www.w3.org/2001/XMLSchema#integer> . <http://e/b> <http://e/q> \"2\"^^<http://www.w3.org/2001/XMLSchema#integer> . <http://e/a> <http://e/n> \"x\" }",
-    ] { println!("{:?}", s.execute_sparql(q).map(|r| r.rows)); }
-    for q in [
-        "SELECT ?s ?o WHERE { ?s <http://e/p> ?o }",
-        "SELECT ?s ?o ?z WHERE { ?s <http://e/p> ?o . ?o <http://e/p> ?z }",
-        "SELECT ?s ?v WHERE { ?s <http://e/q> ?v FILTER(?v > 1) }",
-        "SELECT ?s ?v WHERE { ?s <http://e/q> ?v FILTER(?v = 1) }",
-        "SELECT ?s ?v WHERE { ?s <http://e/p> ?o OPTIONAL { ?s <http://e/q> ?v } }",
-        "SELECT ?s WHERE { { ?s <http://e/q> ?v } UNION { ?s <http://e/n> ?v } }",
-        "SELECT DISTINCT ?s WHERE { ?s ?p ?o }",
-        "SELECT ?s ?v WHERE { ?s <http://e/q> ?v } ORDER BY DESC(?v)",
-        "SELECT ?s ?v WHERE { ?s <http://e/q> ?v } ORDER BY ?v LIMIT 1",
-        "SELECT ?s ?v WHERE { ?s <http://e/q> ?v } ORDER BY ?v OFFSET 1 LIMIT 1",
-        "SELECT (COUNT(?s) AS ?c) WHERE { ?s <http://e/p> ?o }",
-        "SELECT (COUNT(*) AS ?c) WHERE { ?s <http://e/p> ?o }",
-        "SELECT ?s (COUNT(?o) AS ?c) WHERE { ?s ?p ?o } GROUP BY ?s",
-        "ASK { <http://e/a> <http://e/p> <http://e/b> }",
-        "SELECT ?s WHERE { ?s <http://e/p> ?o FILTER(?o = <http://e/b>) }",
-        "SELECT ?s WHERE { ?s <http://e/n> \"x\" }",
-        "SELECT ?x WHERE { ?x <http://e/p> ?x }",
-        "SELECT ?s ?p ?o WHERE { ?s ?p ?o FILTER(isLiteral(?o)) }",
-        "SELECT ?s WHERE { ?s <http://e/p> ?o FILTER NOT EXISTS { ?o <http://e/p> ?z } }",
-        "SELECT ?s ?o WHERE { ?s <http://e/p> ?o MINUS { ?s <http://e/q> ?v } }",
-    ] {
-        match s.execute_sparql(q) { Ok(r) => println!("ok  {q:90} -> {:?}", r.rows), Err(e) => println!("ERR {q:90} -> {}", e.to_string().lines().next().unwrap_or("")) }
-    }
+    let text = std::env::args().nth(1).unwrap();
+    let logical = gql_translator::translate(&text).unwrap();
+    println!("LOGICAL: {:#?}", logical);
+    let o = Optimizer::new().with_filter_pushdown(true).with_join_reorder(false).with_projection_pushdown(false);
+    println!("PUSHED: {:#?}", o.optimize(logical).unwrap());
 }
